@@ -508,6 +508,9 @@ pub fn workload(name: &str, tier: &str) -> Option<Box<dyn Workload>> {
         "c03" => Some(Box::new(c03::Docs {
             n: if quick { 100_000 } else { 3_000_000 },
         })),
+        "c03base" => Some(Box::new(c03::WithBase {
+            n: if quick { 2000 } else { 50_000 },
+        })),
         "c03ids" => Some(Box::new(c03::NearIds {
             n: if quick { 3000 } else { 100_000 },
         })),
